@@ -5,7 +5,8 @@ fields, any namespace, any bases), with the namespace as a symbolic dict and nam
   S1  the new namespace's __slots__ is the tuple of the dataclass field names, followed by __dict__ / __weakref__ when
       requested, minus the names some class of the mro already has a slot for - in that order, nothing else;
   S2  every field name (and __dict__ / __weakref__) is erased from the new namespace, every other entry is kept unchanged;
-  S3  __setstate__ is installed exactly when the dataclass is frozen and the namespace declares neither __getstate__ nor __setstate__;
+  S3  __setstate__ is installed exactly when the dataclass is frozen and neither its namespace nor a base declares
+      __getstate__ / __setstate__ (inherited hooks come as a pair);
   S4  the new class is built by cls's own metaclass from (cls.__name__, cls.__bases__, that namespace) and gets cls's
       qualified name and module;
   S5  the re-entrancy guard is released on return: starting from an empty `_stack`, wrap leaves it empty (so decorating any
@@ -37,6 +38,7 @@ frozen = z3.Function("dataclass_is_frozen", Val, BoolS)
 reprf = z3.Function("repr", Val, Val)
 attr = {n: z3.Function(f"cls.{n}", Val, Val) for n in ("__name__", "__bases__", "__qualname__", "__module__", "__class__")}
 ArrB = z3.ArraySort(Val, BoolS)
+base_declares_state = z3.Function("a_base_declares___getstate___or___setstate__", Val, BoolS)
 base_provides = {n: z3.Function(f"a_direct_base_already_provides{n}", Val, BoolS) for n in ("__dict__", "__weakref__")}
 
 
@@ -125,6 +127,9 @@ def make_interp(st):
     I.expr_contracts = {
         "any((b.__dictoffset__ for b in cls.__bases__))": lambda I, env, path: SBool(base_provides["__dict__"](to_val(env.lookup("cls")))),
         "any((b.__weakrefoffset__ for b in cls.__bases__))": lambda I, env, path: SBool(base_provides["__weakref__"](to_val(env.lookup("cls")))),
+        # some class of the mro other than cls itself and object declares a state method in its own namespace
+        "any((param in vars(c) for c in cls.__mro__[1:-1] for param in ('__getstate__', '__setstate__')))":
+            lambda I, env, path: SBool(base_declares_state(to_val(env.lookup("cls")))),
     }
     I.stubs[f"{MOD}._stack"] = st["stack"]
 
@@ -392,7 +397,8 @@ def _one(chk, func, pid, path, out, obls, cur, dflag, wflag):
     from pyvc.core import Closure
     is_fix = installed and isinstance(cur["stored"]["__setstate__"], Closure) and cur["stored"]["__setstate__"].node.name == "_slots_setstate"
     chk.add(Ob(func, CLAUSES[2], pid, hy + [fld_intro, fld_elim],
-               z3.And(z3.BoolVal(installed == is_fix), z3.BoolVal(installed) == z3.And(frozen(cls), z3.Not(user_state)))))
+               z3.And(z3.BoolVal(installed == is_fix),
+                      z3.BoolVal(installed) == z3.And(frozen(cls), z3.Not(user_state), z3.Not(base_declares_state(cls))))))
     # ---- S4
     chk.add(Ob(func, CLAUSES[3], pid, hy, z3.And(nc.meta == cls_of(cls), nc.name == attr["__name__"](cls), nc.bases == attr["__bases__"](cls),
                                                  nc.attrs.get("__qualname__", VNone) == attr["__qualname__"](cls),
